@@ -3,7 +3,8 @@
 (* Property C18: the documented laws of mappyfile.dictutils                *)
 (*   update(d1, d2, overwrite)   find / findall / findunique / findkey     *)
 (*                                                                         *)
-(* Values (text and numbers are interned; id order = sort order):          *)
+(* Values (text and numbers are interned; id order = sort order; id 0 is   *)
+(* the falsy one: the empty string / the number 0):                        *)
 (*   [t |-> "str", n]  [t |-> "int", n]  [t |-> "none"]                    *)
 (*   [t |-> "dict", items |-> Seq(<<key, value>>)]                         *)
 (*   [t |-> "list", elems |-> Seq(value)]                                  *)
@@ -27,7 +28,8 @@ CONSTANTS
     MaxMention,   \* a patch mentions at most this many top-level keys
     MaxList,      \* longest object list in d1
     OwSet,        \* overwrite flags explored
-    NameOpts,     \* partition of the d1 universe between parallel runs: subset of 0..2
+    Vary,         \* d1: at most this many of the keys name/sub/layers differ from their default form (3 = full product)
+    NameOpts,     \* partition of the d1 universe between parallel runs: subset of 0..3
     MaxHist,      \* history mode: number of patches in a row
     Bug           \* "none", or the name of a deliberately wrong variant (negative configs)
 
@@ -123,17 +125,22 @@ ListLaws(orig, new, res, ow) ==
 
 -----------------------------------------------------------------------------
 (* find helpers                                                            *)
-Matches(item, key, val) ==
-    /\ Has(item.items, key)                                                          \* items lacking the key are skipped
+\* find: the key EQUALS the value (also when the value is itself a list)
+MatchEq(item, key, val) == Has(item.items, key) /\ Lookup(item.items, key) = val    \* items lacking the key are skipped
+\* findall: equality, or "is one of the values" when a list of values is given
+MatchAny(item, key, val) ==
+    /\ Has(item.items, key)
     /\ IF val.t = "list" THEN \E e \in DOMAIN val.elems : val.elems[e] = Lookup(item.items, key)
        ELSE Lookup(item.items, key) = val
-Hits(lst, key, val) == {i \in DOMAIN lst : Matches(lst[i], key, val)}
+HitsEq(lst, key, val) == {i \in DOMAIN lst : MatchEq(lst[i], key, val)}
+Hits(lst, key, val)   == {i \in DOMAIN lst : MatchAny(lst[i], key, val)}
 RECURSIVE SortedSeq(_)
 SortedSeq(Sx) == IF Sx = {} THEN <<>> ELSE LET m == CHOOSE x \in Sx : \A y \in Sx : x <= y IN <<m>> \o SortedSeq(Sx \ {m})
 
 \* results refer to list items by position (the real helper must return those very objects)
-Find(lst, key, val)    == IF Hits(lst, key, val) = {} THEN [t |-> "none"]
-                          ELSE [t |-> "item", i |-> CHOOSE i \in Hits(lst, key, val) : \A j \in Hits(lst, key, val) : i <= j]
+Find(lst, key, val)    == LET h == IF Bug = "findByMembership" THEN Hits(lst, key, val) ELSE HitsEq(lst, key, val) IN
+                          IF h = {} THEN [t |-> "none"]
+                          ELSE [t |-> "item", i |-> CHOOSE i \in h : \A j \in h : i <= j]
 FindAll(lst, key, val) == [t |-> "items", idx |-> IF Bug = "findallReversed" /\ Cardinality(Hits(lst, key, val)) > 1
                                                     THEN <<0>> ELSE SortedSeq(Hits(lst, key, val))]
 \* distinct values present, sorted (values are interned in sort order, so ids are compared)
@@ -152,8 +159,9 @@ FindKey(v, path) == IF path = <<>> THEN v
 Opt(k, Vals) == {<<>>} \cup {<< <<k, v>> >> : v \in Vals}
 ScalarList   == L(<<N(1), N(2)>>)
 
-LeafDicts      == {a \o b : a \in Opt("name", {S(1), S(2)}), b \in Opt("x", {N(1), ScalarList})}
-LeafDictsSmall == {<<>>, << <<"name", S(1)>> >>, << <<"name", S(2)>>, <<"x", N(1)>> >>}
+LeafDicts      == {a \o b : a \in Opt("name", {S(1), S(2), S(0)}), b \in Opt("x", {N(1), ScalarList, N(0), NoneV})}
+Falsy          == {S(0), N(0), NoneV}                                \* '' 0 None: present, but falsy
+LeafDictsSmall == {<<>>, << <<"name", S(1)>> >>, << <<"name", S(2)>>, <<"x", N(1)>> >>, << <<"name", S(0)>>, <<"x", N(0)>> >>}
 SubDicts       == IF Big THEN LeafDicts ELSE LeafDictsSmall \cup {<< <<"x", N(1)>> >>}
 ListItems      == IF Big THEN LeafDictsSmall \cup {<< <<"x", ScalarList>> >>} ELSE LeafDictsSmall \ {<<>>}
 
@@ -161,11 +169,17 @@ RECURSIVE SeqsUpTo(_, _)
 SeqsOf(Sx, n)   == [1..n -> Sx]
 SeqsUpTo(Sx, n) == IF n = 0 THEN {<<>>} ELSE SeqsOf(Sx, n) \cup SeqsUpTo(Sx, n - 1)
 
-NameValsAll == <<{}, {S(1)}, {ScalarList}>>                        \* absent | a scalar | a list of scalars
-D1 == {a \o b \o c :
+NameValsAll == <<{}, {S(1)}, {ScalarList}, Falsy>>                 \* absent | a scalar | a list of scalars | falsy
+\* the default form of a key; the update laws are stated key by key, so the quick universes vary one or
+\* two keys of d1 at a time and keep the others in this form (Vary = 3: the full product)
+DefaultOf(k) == CASE k = "name" -> S(1) [] k = "sub" -> D(<< <<"name", S(1)>> >>) [] OTHER -> L(<<D(<< <<"name", S(1)>> >>)>>)
+Varied(d)    == Cardinality({k \in {"name", "sub", "layers"} : ~Has(d, k) \/ Lookup(d, k) # DefaultOf(k)})
+D1Full == {a \o b \o c :
           a \in UNION {IF NameValsAll[i + 1] = {} THEN {<<>>} ELSE Opt("name", NameValsAll[i + 1]) \ {<<>>} : i \in NameOpts},
           b \in Opt("sub", {D(x) : x \in SubDicts}),
           c \in Opt("layers", {L([i \in DOMAIN s |-> D(s[i])]) : s \in SeqsUpTo(ListItems, MaxList) \ {<<>>}})}
+
+D1 == {d \in D1Full : Varied(d) <= Vary}
 
 \* patches that stay inside the specified behaviour
 KeyPatch(d, k, news) == {<<>>} \cup {<< <<k, v>> >> : v \in news} \cup (IF Has(d, k) THEN {<< <<k, Del>> >>} ELSE {})
@@ -176,23 +190,26 @@ IdxOpts(item) == {NoneV, DelD} \cup {D(p) : p \in LeafPatches(item.items, FALSE)
 RECURSIVE FullListPatches(_)
 FullListPatches(orig) == IF orig = <<>> THEN {<<>>}
                          ELSE {<<h>> \o t : h \in IdxOpts(Head(orig)), t \in FullListPatches(Tail(orig))}
-NewItems == {<< <<"name", S(3)>> >>}
+\* items appended beyond the end of the original list: one or two, different from each other
+NewA == D(<< <<"name", S(3)>> >>)
+NewB == D(<< <<"name", S(2)>>, <<"z", S(1)>> >>)
+Extras == {<<NewA>>, <<NewA, NewB>>, <<NewB, NewA>>}
 ListPatches(orig) ==
     LET full == FullListPatches(orig)
         pre  == {SubSeq(p, 1, n) : p \in full, n \in 1..Len(orig)}                  \* shorter than the original
-        ext  == IF Len(orig) < 3 THEN {p \o <<D(x)>> : p \in full, x \in NewItems} ELSE {}   \* extra items (lists stay short)
+        ext  == IF Len(orig) < 3 THEN {p \o x : p \in full, x \in Extras} ELSE {}     \* extra items (lists stay short)
     IN  (pre \cup ext) \ {<<>>}
 
-NamePatch(d1)   == KeyPatch(d1, "name", {S(2), L(<<N(2)>>)})
+NamePatch(d1)   == KeyPatch(d1, "name", {S(2), L(<<N(2)>>), N(0)})
 SubPatch(d1)    == IF Has(d1, "sub")
                    THEN {<<>>, << <<"sub", DelD>> >>} \cup {<< <<"sub", D(p)>> >> : p \in LeafPatches(Lookup(d1, "sub").items, Big)}
                    ELSE {<<>>} \cup {<< <<"sub", D(x)>> >> : x \in {<<>>, << <<"name", S(1)>> >>}}
 LayersPatch(d1) == IF Has(d1, "layers")
                    THEN {<<>>} \cup {<< <<"layers", L(p)>> >> : p \in ListPatches(Lookup(d1, "layers").elems)}
-                   ELSE {<<>>, << <<"layers", L(<<D(<< <<"name", S(1)>> >>)>>)>> >>}
+                   ELSE {<<>>} \cup {<< <<"layers", L(x)>> >> : x \in Extras}              \* a new object list
 \* "zz" is a key d1 does not have at first; in history mode it may exist: then only patches of its own shape
 ZPatch(d1)      == IF ~Has(d1, "zz")
-                   THEN Opt("zz", {S(1), D(<< <<"name", S(1)>> >>), L(<<D(<< <<"name", S(1)>> >>)>>), L(<<N(1)>>)})
+                   THEN Opt("zz", {S(1), D(<< <<"name", S(1)>> >>), L(<<D(<< <<"name", S(1)>> >>)>>), L(<<NewA, NewB>>), L(<<N(1)>>)})
                    ELSE LET z == Lookup(d1, "zz") IN
                         {<<>>, << <<"zz", Del>> >>} \cup
                         {<< <<"zz", v>> >> : v \in
@@ -209,19 +226,26 @@ UpdateCase(d1, d2, ow) == [kind |-> "update", d1 |-> D(d1), d2 |-> D(d2), ow |->
 
 \* find universes
 FindItems == {<<>>, << <<"name", S(1)>> >>, << <<"name", S(2)>> >>, << <<"name", S(3)>> >>, << <<"name", N(1)>> >>,
-              << <<"x", N(1)>> >>, << <<"x", N(2)>>, <<"name", S(1)>> >>}
+              << <<"x", N(1)>> >>, << <<"x", N(2)>>, <<"name", S(1)>> >>,
+              << <<"name", L(<<S(1), S(3)>>)>> >>,                       \* a list-valued keyword
+              << <<"name", N(0)>> >>, << <<"name", S(0)>> >>}            \* falsy values
 FindLists == {[i \in DOMAIN s |-> D(s[i])] : s \in SeqsUpTo(FindItems, IF Big THEN 4 ELSE 3)}
-FindVals  == {S(1), S(2), S(3), N(1), N(2)}
+FindVals  == {S(0), S(1), S(2), S(3), N(0), N(1), N(2)}
 FindValLists == {L(<<S(1), S(3)>>), L(<<S(2)>>), L(<<N(1), S(1)>>)}
-Homogeneous(lst, key) ==
-    Cardinality({Lookup(lst[i].items, key).t : i \in {j \in DOMAIN lst : Has(lst[j].items, key)}}) <= 1
+KeyTypes(lst, key) == {Lookup(lst[i].items, key).t : i \in {j \in DOMAIN lst : Has(lst[j].items, key)}}
+Homogeneous(lst, key) == Cardinality(KeyTypes(lst, key)) <= 1 /\ KeyTypes(lst, key) \subseteq {"str", "int"}
+\* the key is also given in upper case (short lists only, to keep the product small)
+KeyCases(l) == IF Len(l) <= 2 THEN {"l", "U"} ELSE {"l"}
 FindCases ==
-    {[kind |-> "find", lst |-> L(l), key |-> "name", kc |-> kc, val |-> v, res |-> Find(l, "name", v)] :
-        l \in FindLists, v \in FindVals, kc \in {"l", "U"}}
-    \cup {[kind |-> "findall", lst |-> L(l), key |-> "name", kc |-> kc, val |-> v, res |-> FindAll(l, "name", v)] :
-        l \in FindLists, v \in FindVals \cup FindValLists, kc \in {"l", "U"}}
-    \cup {[kind |-> "findunique", lst |-> L(l), key |-> "name", kc |-> kc, res |-> FindUnique(l, "name")] :
-        l \in {x \in FindLists : Homogeneous(x, "name")}, kc \in {"l", "U"}}
+    \* find: equality, also with a list-valued search value
+    UNION {{[kind |-> "find", lst |-> L(l), key |-> "name", kc |-> kc, val |-> v, res |-> Find(l, "name", v)] :
+              v \in FindVals \cup FindValLists, kc \in KeyCases(l)} : l \in FindLists}
+    \* findall: a list of values means "one of"; whether a list-valued keyword can equal a list of values is
+    \* not specified, so that combination is not generated
+    \cup UNION {{[kind |-> "findall", lst |-> L(l), key |-> "name", kc |-> kc, val |-> v, res |-> FindAll(l, "name", v)] :
+              v \in FindVals \cup (IF "list" \in KeyTypes(l, "name") THEN {} ELSE FindValLists), kc \in KeyCases(l)} : l \in FindLists}
+    \cup UNION {{[kind |-> "findunique", lst |-> L(l), key |-> "name", kc |-> kc, res |-> FindUnique(l, "name")] :
+              kc \in KeyCases(l)} : l \in {x \in FindLists : Homogeneous(x, "name")}}
 
 \* every path into a value
 RECURSIVE Paths(_)
@@ -259,7 +283,9 @@ UpdateLaws == case.kind = "update" => Laws(case.d1.items, case.d2.items, case.re
 
 FindLaws ==
     /\ case.kind \in {"find", "findall"} =>
-         LET l == case.lst.elems  h == Hits(l, case.key, case.val) IN
+         LET l == case.lst.elems
+             h == IF case.kind = "find" THEN HitsEq(l, case.key, case.val) ELSE Hits(l, case.key, case.val)
+         IN
          /\ (case.kind = "find" => IF h = {} THEN case.res.t = "none"
                                    ELSE case.res.t = "item" /\ case.res.i \in h /\ \A j \in h : case.res.i <= j)
          /\ (case.kind = "findall" =>
